@@ -920,7 +920,17 @@ def get_code(node: ast.AST | Range, source: str) -> str:
 
 
 def literal_value(node: ast.AST) -> bool:
-    if has_side_effect(node, safe_callable_whitelist=constants.BUILTIN_FUNCTIONS):
+    try:
+        return _literal_value(node)
+    except ValueError:
+        raise
+    except Exception as error:
+        # e.g. 1 / 0 or 1 + "a": evaluating the expression raises, so it has no known value
+        raise ValueError(f"Cannot find a deterministic value: {error!r}") from error
+
+
+def _literal_value(node: ast.AST) -> bool:
+    if has_side_effect(node, safe_callable_whitelist=constants.SAFE_CALLABLES):
         raise ValueError("Cannot find a deterministic value for a node with a side effect")
 
     if match_template(
@@ -970,7 +980,7 @@ def literal_value(node: ast.AST) -> bool:
         return getattr(node_value, node.func.attr)(*args)
 
     if isinstance(node, ast.Call):
-        if isinstance(node.func, ast.Name) and node.func.id in constants.BUILTIN_FUNCTIONS:
+        if isinstance(node.func, ast.Name) and node.func.id in constants.SAFE_CALLABLES:
             args = [literal_value(arg) for arg in node.args]
             return getattr(builtins, node.func.id)(*args)
 
